@@ -81,7 +81,7 @@ PLAN = {
         "exhaustive_note": "20 bound scenarios x marker x 8 layouts; 3 row types x 3 RHS x 4 ranges x 3 objective RHS x 2 layouts; 5 sense forms x 8 layouts x 3 readers; 8 error classes x 8 layouts",
         "chunk": 1500,
     },
-    "C18": {"drive": [D("mps_roundtrip", 1500, 60000)]},
+    "C18": {"gen": [G("mpsrt", "Gen_Inst_MpsRoundtrip.cfg", module="Gen_Inst.tla")], "drive": [D("mps_roundtrip", 1500, 60000)]},
     "C19": {
         "gen": [G("qplib", "Gen_Qplib.cfg", module="Gen_Qplib.tla"),
                 G("qplibrand", "Gen_QplibRand.cfg", module="Gen_Qplib.tla", models=("qplib_models", 300, 20000))],
